@@ -38,10 +38,18 @@ struct Job {
 fn parse_job(v: &Value) -> Job {
     let ctx = v.get("ctx").and_then(|c| c.as_array()).cloned().unwrap_or_default();
     let g = |i: usize| ctx.get(i).and_then(|x| x.as_u64()).unwrap_or(0) as u32;
+    // volume probe: the text is followed by filler up to `pad_to` bytes (the plan stays small, the input does not)
+    let mut input = v["input"].as_str().expect("job.input").to_string();
+    let pad_to = v.get("pad_to").and_then(|a| a.as_u64()).unwrap_or(0) as usize;
+    if pad_to > input.len() {
+        let n = pad_to - input.len();
+        input.reserve_exact(n + 8);
+        input.extend(std::iter::repeat('#').take(n));
+    }
     Job {
         variant: v["variant"].as_str().expect("job.variant").to_string(),
         rule: v["rule"].as_str().expect("job.rule").to_string(),
-        input: v["input"].as_str().expect("job.input").to_string(),
+        input,
         entry: Entry::from_name(v.get("entry").and_then(|e| e.as_str()).unwrap_or("noop")).expect("job.entry"),
         ctx: Ctx { retval: g(0), a_count: g(1), calls: 0 },
         align: v.get("align").and_then(|a| a.as_u64()).unwrap_or(0) as usize % 8,
